@@ -232,7 +232,15 @@ class Rebalance(Contract):
                     PW("static_keys", lambda k: z3.Implies(z3.Or(vn.in_qty(k), vn.in_margins(k), vn.has_last(k)), static_key(k))),
                     Cl("track_record_unchanged", z3.And(tr1["_n"].v == tr0["_n"].v, z3.BoolVal(tr1["_last_record"] is tr0["_last_record"]),
                                                         z3.BoolVal(tr1["_has_time"] is tr0["_has_time"]))),
-                    Cl("no_trade_executed", z3.BoolVal(not any(t == ("call", "Broker.transact") for t in I.trace)))]
+                    Cl("no_trade_executed", z3.BoolVal(not any(t == ("call", "Broker.transact") for t in I.trace))),
+                    Cl("accrual_clock_unchanged_or_at_the_decision", accrual_clock(h))]
+        l0 = c.old[c.self.oid]["_last_accrual"]
+        t = lift_fl(c.old[c.rebalancing.oid]["time"]).v
+        def accrual_clock(h):
+            l1 = h[c.self.oid]["_last_accrual"]
+            same = z3.BoolVal(l1 is None) if l0 is None else (z3.And(z3.Not(lift_fl(l1).nan), lift_fl(l1).v == l0.v) if l1 is not None else FALSE)
+            at = FALSE if l1 is None else z3.And(z3.Not(lift_fl(l1).nan), lift_fl(l1).v == t)
+            return z3.Or(same, at)
         return LazyList(post)
 
     def raises(self, c):
